@@ -502,7 +502,7 @@ pub fn cfgs(tier: &str) -> Vec<(String, Cfg, Limits)> {
         sb.writes = [vec![1], vec![]];
         sb.ticks = [1, 0];
         sb.time_wait_expiry = true;
-        v.push(("simultaneous open, close both, w[1|] tick(1,0)".to_string(), sb, wall(300)));
+        v.push(("simultaneous open, close both, w[1|] tick(1,0)".to_string(), sb, wall(900)));
         let mut t = big.clone();
         t.drops = 1;
         t.dups = 1;
@@ -516,7 +516,7 @@ pub fn cfgs(tier: &str) -> Vec<(String, Cfg, Limits)> {
         t2.dups = 1;
         t2.ticks = [1, 1];
         t2.time_wait_expiry = true;
-        v.push(("simultaneous open, close both, w[1|1] drop1 dup1 tick1".to_string(), t2, wall(600)));
+        v.push(("simultaneous open, close both, w[1|1] drop1 dup1 tick1".to_string(), t2, wall(1800)));
         let mut t3 = Cfg::basic(100, 100, 300);
         t3.old_syn = Some(90);
         t3.closes = [true, true];
@@ -524,12 +524,12 @@ pub fn cfgs(tier: &str) -> Vec<(String, Cfg, Limits)> {
         t3.drops = 1;
         t3.dups = 1;
         t3.ticks = [1, 1];
-        v.push(("old duplicate SYN, close both, w[1|1] drop1 dup1 tick1".to_string(), t3, wall(600)));
+        v.push(("old duplicate SYN, close both, w[1|1] drop1 dup1 tick1".to_string(), t3, wall(1800)));
         let mut t4 = Cfg::basic(1500, 100, 300);
         t4.writes = [vec![70_000], vec![]];
         t4.closes = [true, true];
         t4.reorder = false;
-        v.push(("close both after a 70000-byte write (above the window), FIFO network".to_string(), t4, wall(300)));
+        v.push(("close both after a 70000-byte write (above the window), FIFO network".to_string(), t4, wall(900)));
     }
     v
 }
